@@ -219,9 +219,9 @@ def st_of(x, conc):
 def proj_entry(x, conc):
     pk = []
     if x.prev:
-        if len(x.prev) != 1:
-            raise common.MachineryError('prev set with more than one element')
-        p = next(iter(x.prev))
+        # normally exactly one best predecessor; if a change makes it several, take a deterministic one
+        # (the event's `dangling` / `multiprev` lists report the anomaly to the trace specification)
+        p = sorted(x.prev, key=lambda q: str(q.key))[0]
         pk = [st_of(p, conc), p.obs, p.obs_ne]
     return {'st': st_of(x, conc), 'obs': x.obs, 'ne': x.obs_ne, 'lp': fx(x.logprob), 'lpe': fx(x.logprobe),
             'lpne': fx(x.logprobne), 'prev': pk, 'stop': bool(x.stop), 'len': x.length, 'delayed': x.delayed,
